@@ -29,6 +29,7 @@ type half struct {
 	written    int
 	dead       bool // writes in this direction fail (peer gone)
 	stalled    bool // the peer does not drain its socket and the buffer is full: writes block
+	freezeAt   int  // >= 0: nothing beyond this many bytes is ever delivered, and no end of stream either (silent peer / partition)
 	failAt     int  // >= 0: the write that crosses this many bytes written is partial and fails (peer died mid-write)
 	readerGone bool // the reading end was closed locally
 }
@@ -50,14 +51,14 @@ type Conn struct {
 
 // NetStats counts fired network events of a run.
 type NetStats struct {
-	Delivered, Chunked, EOFs, Resets, Cuts, Kills, BytesDelivered, Stalls, PartialWrites int
+	Delivered, Chunked, EOFs, Resets, Cuts, Kills, BytesDelivered, Stalls, PartialWrites, Freezes int
 }
 
 // Pipe creates a connected pair. a writes "name:a>b".
 func (s *Sched) Pipe(name string) (*Conn, *Conn) {
 	mu := &stdsync.Mutex{}
-	ab := &half{name: name + ":a>b", wake: make(chan struct{}, 1), cutAt: -1, failAt: -1}
-	ba := &half{name: name + ":b>a", wake: make(chan struct{}, 1), cutAt: -1, failAt: -1}
+	ab := &half{name: name + ":a>b", wake: make(chan struct{}, 1), cutAt: -1, failAt: -1, freezeAt: -1}
+	ba := &half{name: name + ":b>a", wake: make(chan struct{}, 1), cutAt: -1, failAt: -1, freezeAt: -1}
 	a := &Conn{s: s, mu: mu, rd: ba, wr: ab, name: name, end: "a"}
 	b := &Conn{s: s, mu: mu, rd: ab, wr: ba, name: name, end: "b"}
 	a.peer, b.peer = b, a
@@ -76,6 +77,9 @@ func (c *Conn) schedule(h *half) {
 	}
 	if len(h.segs) == 0 && !(h.eofSent && !h.eof) {
 		return
+	}
+	if h.freezeAt >= 0 && h.delivered >= h.freezeAt {
+		return // frozen: the rest stays in flight for ever
 	}
 	h.pending = true
 	s := c.s
@@ -113,6 +117,10 @@ func (c *Conn) schedule(h *half) {
 				if arg > 0 && arg < k {
 					k = arg
 					s.Net.Chunked++
+				}
+				if h.freezeAt >= 0 && h.delivered+k > h.freezeAt {
+					k = h.freezeAt - h.delivered
+					s.Net.Freezes++
 				}
 				h.delivered += k
 				s.Net.Delivered++
@@ -269,6 +277,10 @@ func (c *Conn) StallWrites(on bool) { c.mu.Lock(); c.wr.stalled = on; c.mu.Unloc
 // FailWriteAt plans a partial, failing write: the write by this end that crosses n bytes
 // written in total writes only up to n and returns EPIPE; the direction is dead afterwards.
 func (c *Conn) FailWriteAt(n int) { c.mu.Lock(); c.wr.failAt = n; c.mu.Unlock() }
+
+// FreezeWrite makes the direction written by this end go silent after n delivered bytes: nothing
+// more arrives, not even an end of stream (a partition, or a peer that stopped mid-frame).
+func (c *Conn) FreezeWrite(n int) { c.mu.Lock(); c.wr.freezeAt = n; c.mu.Unlock() }
 
 // Kill is peer death as seen by this end's peer... it closes both directions at once
 // from "outside": undelivered bytes in both directions are dropped, both ends read
